@@ -1,7 +1,7 @@
 """C20 - layouts survive a JSON round trip with exact 256-bit slot indices.
 
 Monitor: the driver generates layout entries from a seeded generator covering every AbiType variant, serialises them
-with the library's serde implementation, deserialises through four routes (from_str, from_value, from_reader,
+with the library's serde implementation (compact, pretty, byte vector, lists of 7 entries), deserialises through four routes (from_str, from_value, from_reader,
 from_slice), compares (library PartialEq, re-serialised text, index) and
 also prints the index through ethnum's decimal Display - an independent code path. This module re-checks format and
 value of every index in Python (arbitrary precision) and the JSON-level shape.
